@@ -514,9 +514,12 @@ def _quiet_equal(got, want, err):
         return bool(np.all(np.abs(got - want) <= tol))
 
 
+_LAST_EV = {}
+
+
 def _wrap_stacked(ev, has_terminator, humans):
     import dataclasses
-    state = {"n": 0}
+    state = {"n": 0, "last": None}
     orig_jacob = ev.eval_jacob
     orig_fj = ev.eval_func_jacob
     orig_f = ev.eval_func
@@ -542,9 +545,11 @@ def _wrap_stacked(ev, has_terminator, humans):
                 return
             text = " ".join(humans)
             feats = tuple(f_ for f_ in ("log", "exp", "sqrt", "logistic", "maximum", "minimum", "abs", "^", "/") if (f_ + "(" in text or (f_ in "^/" and f_ in text)))
-            if set(feats) & {"^", "/", "log", "sqrt"}:
+            J_ = jac.toarray() if hasattr(jac, "toarray") else np.asarray(jac)
+            if set(feats) & {"^", "/", "log", "sqrt"} and not np.all(np.isfinite(J_)):
                 # x**a, 1/x, log and sqrt have the edge of their domain at 0: a point (including the terminal condition the
-                # terminator writes) with an endogenous value exactly there is not an interior point and is left undecided
+                # terminator writes) with an endogenous value exactly there is not an interior point; when irispie's Jacobian
+                # is not finite at such a point the case is left undecided (an infinite one-sided derivative, not a wrong one)
                 a0, a1 = base.copy(), base.copy()
                 with np.errstate(all="ignore"):
                     orig_f(g0, a0); orig_f(g0 + 0.12345, a1)
@@ -564,15 +569,21 @@ def _wrap_stacked(ev, has_terminator, humans):
             c.extra["last_monitor_error"] = repr(exc)[:300]
 
     def eval_jacob(guess, data_array):
+        if guess is not None:
+            state["last"] = (np.array(guess, dtype=float, copy=True), np.array(data_array, dtype=float, copy=True))
         out = orig_jacob(guess, data_array)
         check(guess, data_array, out)
         return out
 
     def eval_func_jacob(guess, data_array):
+        if guess is not None:
+            state["last"] = (np.array(guess, dtype=float, copy=True), np.array(data_array, dtype=float, copy=True))
         out = orig_fj(guess, data_array)
         check(guess, data_array, out[1])
         return out
 
+    _LAST_EV.clear()
+    _LAST_EV.update(state=state, eval_jacob=eval_jacob, has_terminator=has_terminator)
     try:
         return dataclasses.replace(ev, eval_jacob=eval_jacob, eval_func_jacob=eval_func_jacob)
     except Exception:
@@ -788,13 +799,66 @@ def _run_stacked_evaluator(c, m, spec, case):
         c.note(f"stacked_jacob:rejected:{type(exc).__name__}")
 
 
+def kinked_lead_model(rng):
+    """x = rho*x[-1] + a*KINK(x[+1]) + k + e  (+ an optional log-variable reading x[+1]): the derivative w.r.t. the lead is
+    exactly zero on one side of the kink (inactive maximum/minimum, x[+1]^2 at the origin) and non-zero on the other, so the
+    sparsity the terminal-condition correction sees at the first evaluation is not the one it needs later"""
+    rho = float(np.round(rng.uniform(0.3, 0.9), 2))
+    a = float(np.round(rng.uniform(0.1, 0.4), 2))
+    cth = float(np.round(rng.uniform(0.3, 1.0), 2))
+    kind = str(rng.choice(["maximum", "maximum", "square"]))   # minimum() of an expression is rejected by irispie (TypeError)
+    xl = E.var("x", 1)
+    if kind == "maximum":
+        kink, xbar = E.call("maximum", E.bin_("-", xl, E.num(cth)), E.num(0.0)), 0.0       # inactive at 0 < c
+    elif kind == "minimum":
+        kink, xbar = E.call("minimum", E.bin_("+", xl, E.num(cth)), E.num(0.0)), 0.0       # inactive at 0 > -c
+    else:
+        kink, xbar = E.bin_("^", xl, E.num(2)), 0.0                                         # zero slope at the origin
+    spec = {"tvars": [{"name": "x", "desc": "", "log": False}], "mvars": [], "exog": [], "mshocks": [], "families": [], "user_funcs": {},
+            "tshocks": [{"name": "e", "desc": ""}], "params": [{"name": "rho", "desc": "", "value": rho}, {"name": "a", "desc": "", "value": a}],
+            "teqs": [{"lhs": E.var("x", 0), "rhs": E.add_all([E.bin_("*", E.par("rho"), E.var("x", -1)), E.bin_("*", E.par("a"), kink), E.var("e", 0)]),
+                      "steady": None, "desc": "", "eqsign": "="}],
+            "meqs": [], "flags": {"linear": False, "flat": True}}
+    steady = {"x": (xbar, 0.0)}
+    if rng.random() < 0.5:
+        spec["tvars"].append({"name": "y", "desc": "", "log": True})
+        spec["tshocks"].append({"name": "ey", "desc": ""})
+        spec["teqs"].append({"lhs": E.var("y", 0), "rhs": E.bin_("*", E.bin_("*", E.bin_("^", E.var("y", -1), E.num(0.6)), E.call("exp", E.bin_("*", E.num(0.1), E.var("x", 1)))), E.call("exp", E.var("ey", 0))),
+                             "steady": None, "desc": "", "eqsign": "="})
+        steady["y"] = (1.0, 1.0)
+    return spec, steady, {"family": "kink", "kind": kind}
+
+
+def _drive_evaluator_history(c, rng, n_points=3):
+    """ask the evaluator of the last stacked-time simulation for its Jacobian at further points: the same evaluator object
+    (and its terminator) must return the true derivatives at every point of its life, not only at the first one"""
+    st = _LAST_EV.get("state")
+    if not st or st.get("last") is None:
+        return
+    g0, data = st["last"]
+    st["n"] = 0
+    for i in range(n_points):
+        sc = float(rng.choice([0.02, 0.3, 1.5]))
+        g = g0 + sc * rng.normal(0, 1, size=g0.shape) * np.maximum(1.0, np.abs(g0)) * (1 if i else 0)
+        try:
+            with rt.quiet(), np.errstate(all="ignore"):
+                _LAST_EV["eval_jacob"](g, data.copy())
+            c.note("stacked_jacob:evaluator-history-point")
+        except Exception as exc:
+            c.note(f"stacked_jacob:evaluator-history-raised:{type(exc).__name__}")
+
+
 def run_terminator_case(c, case):
-    """family-N model simulated by stacked time with the first-order terminal condition: the stacked Jacobian monitor then
-    sees the terminator's Jacobian correction at the Newton iterates"""
+    """family-N (or kinked-lead) model simulated by stacked time with the first-order terminal condition: the stacked Jacobian
+    monitor then sees the terminator's Jacobian correction at the Newton iterates and, afterwards, at further points asked of
+    the same evaluator"""
     import irispie as ir
     from ..workloads import families as F
     rng = np.random.default_rng(case["seed"])
-    spec, steady, meta = F.family_N(rng, measurement=False)
+    if rng.random() < 0.35:
+        spec, steady, meta = kinked_lead_model(rng)
+    else:
+        spec, steady, meta = F.family_N(rng, measurement=False)
     if spec is None:
         return
     src = M.render_source(spec, None, 0)["source"]
@@ -817,11 +881,13 @@ def run_terminator_case(c, case):
         sh = spec["tshocks"][0]["name"]
         db[sh][ir.qq(2020, 1)] = float(rng.normal(0, 0.03))
         db["ant_" + sh][ir.qq(2020, 1) + (T - 1)] = float(rng.normal(0, 0.03))
+        _LAST_EV.clear()
         try:
             with rt.quiet(), np.errstate(all="ignore"):
                 m.simulate(db, span, method="stacked_time", when_fails="silent", solver_settings={"step_tolerance": float("inf")})
         except Exception as exc:
             c.inconc(f"terminator-case:simulate-raised:{type(exc).__name__}")
+        _drive_evaluator_history(c, rng)
 
 
 def replay(c, case):
